@@ -244,5 +244,8 @@ def check(chk):
     si = src(pm)
     chk.judge(si.index('self._requests.pop(stream_id)') < si.index('decoder(header.version'), 'C10.decode', pm,
               'the callback is removed from _requests before its response is decoded', 'callback still registered while its response is handled: it can be failed twice')
+    # "no later response is delivered": the read loop stops at the first step that failed the connection
+    chk.rule('C10.later', 'process_io_buffer delivers nothing after a step that made the connection defunct (is_defunct tested between the failing step and the next delivery)')
+    chk.borrow('C06', {'C06.stop': 'C10.later'}, 'frames that follow the failing one in the same read are still handed to process_msg: a continuous paging session that was just failed receives a page after its error')
     chk.require('C10.latch', 7)
     chk.require('C10.wrap', 9)
